@@ -348,14 +348,23 @@ def _sig_spec(spec):
 
 
 # ---------------------------------------------------------------- one case = one history on one configuration
-def drive_history(ad, rng, nops, commit_only):
+def drive_history(ad, rng, nops, commit_only, directed=False):
     """Random legal history on the real learner; returns the concrete op list
     (ops that raised end the history, except argument-less corner cases)."""
     l = ad.make()
     H, handed = [], []
     w = {"commit": 1.0 if commit_only else 0.75}
-    for _ in range(nops):
-        op = G.gen_op(ad, l, rng, handed, w)
+    script = G.directed_ops(ad, l, rng) if directed else None
+    out = None
+    for _ in range(nops + (40 if directed and G.base_kind(ad.spec) == "Int" else 0)):
+        op = None
+        if script is not None:
+            try:
+                op = script.send(out) if H else next(script)
+            except StopIteration:
+                script = None
+        if op is None:
+            op = G.gen_op(ad, l, rng, handed, w)
         out = G.apply_op(ad, l, op)
         if G.is_exc(out):
             if op[0] == "ask" and op[1] == 0:
@@ -380,15 +389,20 @@ def track_handed(ad, op, out, handed):
 
 
 def run_case(args):
-    spec, seed, nops, stride = args
+    spec, seed, nops, stride = args[:4]
+    directed = len(args) > 4 and args[4]
     warnings.filterwarnings("ignore")
     ad = G.adapter(spec)
     rng = random.Random(seed)
     fragile = spec["kind"] == "Bal" or G.base_kind(spec) == "Int"
-    H = drive_history(ad, rng, nops, commit_only=fragile)
+    H = drive_history(ad, rng, nops, commit_only=fragile, directed=directed)
     fails, probes, with_pending, known_hits = [], 0, 0, 0
     nhist = {}
-    for k in range(0, len(H) + 1, stride):
+    if len(H) > 3 * nops:           # long scripted opening (integrator): probe its end and the random tail
+        positions = list(range(len(H) - nops, len(H) + 1, stride))
+    else:
+        positions = list(range(0, len(H) + 1, stride))
+    for k in positions:
         n = rng.randint(0, 12) if rng.random() < 0.6 else rng.choice([1, 2, 3])
         prefix = H[:k]
         try:
@@ -443,7 +457,7 @@ def l1d_next_op(rng, l, cfg):
 
 
 def correspondence(chk: Check):
-    ncs, ncl = (120, 70) if chk.quick else (1500, 900)
+    ncs, ncl = (200, 120) if chk.quick else (2000, 1200)
     # --- SequenceLearner
     cases, metas = [], []
     for k in range(ncs):
@@ -506,15 +520,15 @@ def run(chk: Check) -> int:
         chk.fail(SIG_F16, f"BalancingLearner([IntegratorLearner, ...]).ask(1) raises {G.short(bi_exc)}",
                  {"spec": {"kind": "Bal", "child": {"kind": "Int"}, "nchild": 2, "strategy": "cycle"}, "ops": [], "n": 1, "smoke": "balint"})
     specs = all_specs(l2d_ok=not l2d_exc, bal_int_ok=not bi_exc)
-    per = 3 if chk.quick else 24
-    nops = 14 if chk.quick else 40
+    per = 9 if chk.quick else 40
+    nops = 16 if chk.quick else 40
     stride = 1 if chk.quick else 2
     jobs = []
     corpus = sorted((chk.work.parents[1] / "corpus" / "C09").glob("*.json"))
     for si, spec in enumerate(specs):
         for c in range(per):
             seed = chk.rng("case", si, c).randrange(1 << 30)
-            jobs.append((spec, seed, nops, stride))
+            jobs.append((spec, seed, nops, stride, c % 3 == 2))
     results = []
     with cf.ProcessPoolExecutor(max_workers=NPROC) as ex:
         for r in ex.map(run_case, jobs, chunksize=1):
